@@ -47,6 +47,9 @@ func (w *world) bookkeeping(op string) (ok bool) {
 		}
 		ps := w.poolPositions(p)
 		ct, sq, liq := pool.GetCurrentTick(), pool.GetCurrentSqrtPrice(), pool.GetLiquidity()
+		if int64(pool.GetTickSpacing()) != p.spacing {
+			return fail("tick-spacing", "pool %d: tick spacing %d, last accepted change set %d", p.id, pool.GetTickSpacing(), p.spacing)
+		}
 		if len(ps) == 0 {
 			if !sq.IsZero() || ct != 0 || !liq.IsZero() {
 				return fail("empty-pool-has-price", "pool %d has no positions but sqrt price %s tick %d liquidity %s", p.id, sq, ct, liq)
